@@ -233,7 +233,7 @@ def run(ctx):
                                       dict(wit, got=gf[0][:4], expected=ref_f[0][:4]))
                     ctx.case(('read', ic, b, ctx.shard), nontrivial=a != b, sample=wit if a != b else None)
                 # unsupported requested units are refused
-                for badu in (u.K, u.m, u.dimensionless_unscaled, u.Hz):
+                for badu in (u.K, u.m, u.dimensionless_unscaled, u.Hz, u.erg / u.cm ** 2 / u.s / u.AA, u.W / u.m ** 2 / u.micron, u.erg / u.s / u.Hz):          # (F_lambda, L_nu: not among the three supported families)
                     try:
                         SED.read(path, unit_flux=badu)
                     except Exception:
@@ -244,7 +244,7 @@ def run(ctx):
         # unsupported stored unit refused
         path = os.path.join(d, 'bad%d.fits' % rep)
         wav = np.array([1.0, 2.0, 3.0])
-        for badspell in ('K', 'm', 'Hz'):
+        for badspell in ('K', 'm', 'Hz', 'erg / (Angstrom cm2 s)', 'W / (m2 um)'):          # (F_lambda is not a supported family)
             pkg.write_sed_file(path, 'x', wav, pkg.C_UM_HZ / wav, None, np.ones((1, 3)), np.ones((1, 3)), legacy_units=False, flux_unit=badspell)
             try:
                 SED.read(path, unit_flux=u.mJy)
